@@ -1,5 +1,6 @@
 use super::PublishRequestType;
 
+#[cfg_attr(feature = "verif", derive(Clone))]
 pub enum TransactionPurpose {
     PlayRequest {
         stream_key: String,
@@ -11,6 +12,7 @@ pub enum TransactionPurpose {
     },
 }
 
+#[cfg_attr(feature = "verif", derive(Clone))]
 pub enum OutstandingTransaction {
     ConnectionRequested { app_name: String },
 
